@@ -192,9 +192,9 @@ def lca_type(dtypes: list[Dtype]) -> Dtype:
         return NullType()
 
     # reduce to simple types
-    if isinstance(dtypes[0], List):
+    if any(isinstance(dtype, List) for dtype in dtypes):
         if diff := next((dtype for dtype in dtypes if not isinstance(dtype, List)), None):
-            raise DataTypeError(f"type `{diff.__name__}` is not compatible with `List` type")
+            raise DataTypeError(f"type `{diff}` is not compatible with `List` type")
 
         return List(lca_type([dtype.inner for dtype in dtypes]))
 
